@@ -2,6 +2,7 @@ package engine
 
 import (
 	"bytes"
+	"encoding/binary"
 	"fmt"
 	"math"
 	"math/rand/v2"
@@ -332,8 +333,107 @@ func runC05(e *Env, c *LibCase) {
 			}
 			e.Probe("abandon-after-a-sync-with-later-writes")
 		}
+		if k%4 == 1 && len(durableAt[k]) >= 16 && binary.BigEndian.Uint32(durableAt[k][12:]) != 0 {
+			// the path is created again over the synced file (same archive list,
+			// another method and xFilesFactor, open flags without O_EXCL) and that
+			// handle is dropped before its first Sync: nothing was synced, the
+			// file still holds the last synced state
+			l2 := c.Layout
+			l2.Method = l2.Method%6 + 1
+			l2.Xff = 1 - l2.Xff
+			var rdb *wt.Whisper
+			_, pan := callSafely(func() error {
+				var err error
+				rdb, err = l2.create(fp, wt.WithOpenFileFlag(os.O_RDWR|os.O_CREATE))
+				return err
+			})
+			if pan == "" && rdb != nil {
+				rdb.Close()
+				if b := readFile(fp); !bytes.Equal(b, durableAt[k]) {
+					e.Violate("C05.abandon", "synced file created again (Create with O_RDWR|O_CREATE, same archives, method %s) and that handle closed without Sync: the file differs from the last synced state at offset %d",
+						methodName(l2.Method), firstDiff(b, durableAt[k]))
+					return
+				}
+				e.Probe("created-again-and-abandoned-before-the-first-sync")
+			}
+		}
 		os.Remove(fp)
+		if k%6 == 3 {
+			// calls in the wrong order: Close, then Sync. A Sync that reports
+			// success claims that the file holds the handle's state, i.e. what a
+			// Sync before the Close would have left
+			sdb, ok := c05Replay(e, c, filepath.Join(e.Dir, fmt.Sprintf("forkA%d.wsp", k)), k)
+			tdb, ok2 := c05Replay(e, c, filepath.Join(e.Dir, fmt.Sprintf("forkB%d.wsp", k)), k)
+			if !ok || !ok2 {
+				return
+			}
+			tdb.Sync()
+			tdb.Close()
+			sdb.Close()
+			serr, pan := callSafely(func() error { return sdb.Sync() })
+			a, b := readFile(filepath.Join(e.Dir, fmt.Sprintf("forkA%d.wsp", k))), readFile(filepath.Join(e.Dir, fmt.Sprintf("forkB%d.wsp", k)))
+			os.Remove(filepath.Join(e.Dir, fmt.Sprintf("forkA%d.wsp", k)))
+			os.Remove(filepath.Join(e.Dir, fmt.Sprintf("forkB%d.wsp", k)))
+			switch {
+			case pan != "":
+				e.Note("sync-after-close-panics")
+			case serr == nil && !bytes.Equal(a, b):
+				e.Violate("C05.synced-visible", "history replayed up to op %d, then Close, then Sync: Sync reported success but the file differs at offset %d from the file of the same history synced before its Close",
+					k, firstDiff(a, b))
+				return
+			case serr != nil && !bytes.Equal(a, durableAt[k]):
+				e.Violate("C05.abandon", "history replayed up to op %d, then Close, then a Sync that failed (%v): the file differs from the last synced state at offset %d", k, serr, firstDiff(a, durableAt[k]))
+				return
+			default:
+				e.Probe("sync-after-close-refused")
+			}
+		}
 	}
+}
+
+// c05Replay replays the history up to op k on a fresh file and returns the
+// live handle.
+func c05Replay(e *Env, c *LibCase, fp string, k int) (*wt.Whisper, bool) {
+	fdb, err := c.Layout.create(fp)
+	if err != nil {
+		e.Violate("C05.create", "Create failed: %v", err)
+		return nil, false
+	}
+	fnow := c.Clock0
+	fsynced := false
+	for j := 0; j <= k; j++ {
+		op := c.Ops[j]
+		switch op.Op {
+		case "adv":
+			fnow += op.D
+		case "upd", "many":
+			c05Apply(fdb, op, fnow)
+		case "corrupt":
+			if off, ok := c05CorruptOffset(c.Layout, int(op.D)); ok && fsynced {
+				fdb.Sync()
+				fdb.Close()
+				c05Corrupt(fp, off)
+				fdb, err = wt.Open(fp)
+				if err != nil {
+					e.Skip("open-after-damage-failed")
+					return nil, false
+				}
+			}
+		case "sync":
+			fdb.Sync()
+			fsynced = true
+		case "reopen":
+			fsynced = true
+			fdb.Sync()
+			fdb.Close()
+			fdb, err = wt.Open(fp)
+			if err != nil {
+				e.Violate("C05.reopen", "Open failed in fork: %v", err)
+				return nil, false
+			}
+		}
+	}
+	return fdb, true
 }
 
 func firstDiff(a, b []byte) int {
